@@ -108,6 +108,7 @@ def small_sessions(py7zr):
 
 
 def check_order(desc, initial, ops, rep):
+    ops = [(o, d) for (o, d) in ops if d is not None]          # (a final truncate cuts the file behind the end header: no write)
     """T: the write stream follows the commit order of Crash.tla: nothing touches offset < 32 between the first and the final
     signature-header rewrite, and the final rewrite is the last thing that happens, field by field from offset 0."""
     sig_writes = [k for k, (off, d) in enumerate(ops) if off < 32]
@@ -209,7 +210,7 @@ def run(tier, rep, ev):
                 rep.violation(f"append-after-crash-loses-members:{label[0]}:{desc.split('#')[0]}",
                               f"{desc} crash point {label}: an append session on the image left {val[:4]}, neither the old nor the new members plus its own",
                               {"session": desc, "crash_point": label, "image": img, "got": val, "old": old, "new": new})
-        ev.sample({"session": desc, "operations": [(o, len(d)) for o, d in ops][:14], "crash_points": len(cases),
+        ev.sample({"session": desc, "operations": [(o, len(d) if d is not None else -1) for o, d in ops][:14], "crash_points": len(cases),
                    "outcomes": {"reject": nrej, "old": nold, "new": nnew}, "then_append": {"refused": nrej2, "kept": nkept}}, cap=6)
     ev.traces(0)
     ev.cov["traces_validated_against_impl"] = total
